@@ -331,5 +331,12 @@ def run(prog, ctx):
     # sorted(...) loop in to_dense) can only add confidence: what the constructors and the dense conversion do is decided by R16.6 / R16.7.
     ctx.confidence(check_ctor_flow, ("R16.6", "R16.7"), "R16.2/R16.3",
                    hard=lambda f_: f_.construct.startswith(("signature", "default of ")) or f_.message.endswith("from AbelianArray"))
-    check_tables(prog, ctx)
+    ctx.rule("R16.8", "abstract evaluation: utils.from_dense builds the class named <Symmetry>[Fermionic]Array for every (symmetry, fermionic); "
+                      "each fixed-symmetry class resolves to its own symmetry and refuses another")
+    from rules.sem_ctor import check_class_tables
+
+    ctx.guarded("R16.8", prog.func("symmray.utils:from_dense"), check_class_tables, prog, ctx)
+    # check_tables extracts literal tables and if-chains from the TEXT (class naming and static_symmetry flags stay hard: interface facts)
+    ctx.confidence(check_tables, ("R16.8", "R16.6"), "R16.4",
+                   hard=lambda f_: f_.construct.startswith(("class name", "staticmethod", "static_symmetry")))
     ctx.confidence(check_sorted, ("R16.6", "R16.7"), "R16.5")
